@@ -252,6 +252,21 @@ class FakeGen:
 def replay_data(chk, cases):
     from quara.qcircuit import data_generator as dg
     for case in cases:
+        if case["kind"] == "pd":
+            # sub-normalised vector k/D with total mass (D-1)/D: the library function is driven directly with the whole grid
+            D = case["D"]
+            p = np.array(case["k"], dtype=np.float64) / D
+            us = np.arange(2 * D, dtype=np.float64) / (2 * D)
+            got = [dg._random_number_to_data(p, np.float64(u)) for u in us]
+            chk.count(len(us), ("pd", tuple(case["k"])))
+            # below the total mass the inverse CDF is determined; at or above it the property only asks for an outcome of
+            # non-zero probability (the specification's choice, the last one, is one of them)
+            wrong = [i for i in range(len(us)) if (got[i] != case["data"][i] if us[i] < p.sum() else not (0 <= got[i] < len(p) and p[got[i]] > 0))]
+            if wrong:
+                j = wrong[0]
+                chk.violation("data:subnormalised:p%d%s" % (len(p), ":zero" if not (0 <= got[j] < len(p)) or p[got[j]] == 0 else ""),
+                              "p=%s (mass %g): uniform %s -> outcome %s, specification %s" % (p, p.sum(), us[j], got[j], case["data"][j]), case)
+            continue
         if case["kind"] == "p":
             D = case["D"]
             k = case["k"]
